@@ -242,6 +242,31 @@ func init() {
 			return c
 		},
 		Oracles: []oracleFn{oC07},
+		Pre: func(t *rapid.T, th bool, st *Stats) bool {
+			// one case in five exercises the Func / ErrFunc / ResultFunc helper workers instead
+			if rapid.IntRange(0, 4).Draw(t, "helperpart") != 0 {
+				return false
+			}
+			hc := genHelperCase(t, th)
+			st.Evaluations++
+			st.Classes["helper:"+hc.Worker]++
+			if vs := runHelperCase(hc); len(vs) > 0 {
+				st.Verdicts["violation"]++
+				if st.out != "" {
+					writeViolationRaw(st.out, map[string]any{"property": "C07", "part": "helpers", "helper_case": hc, "violations": vs})
+				}
+				t.Fatalf("VIOLATION %s", vs[0])
+			}
+			st.Verdicts["ok"]++
+			kinds := map[int]bool{}
+			for _, j := range hc.Jobs {
+				kinds[j.Kind] = true
+			}
+			if len(kinds) >= 2 {
+				st.hset[hash64("helper", hc.Worker, hc.Conc, hc.Jobs, hc.Sched)] = true
+			}
+			return true
+		},
 		Foreign: []oracleFn{oDeadlock("C03"), oLivelock("C03")},
 		NonTrivial: func(ix *Index) (bool, []string) {
 			cl := classesOf(ix)
@@ -261,6 +286,9 @@ func init() {
 				Ops:     map[string]int{"addall": 30, "gconsume": 25, "gwait": 10, "gpending": 15, "purge": 4, "qclose": 3, "add": 4, "release": 4, "yield": 3},
 				Ctrl:    map[string]int{"pause": 2, "resume": 3},
 				MaxCtrl: 2, GatedProb: 20, Outs: []int{OutVal, OutVal, OutErr, OutPanicStr}, MaxBatch: scale(th, 5, 12)}
+			if th && rapid.IntRange(0, 199).Draw(t, "bigbatch") == 0 {
+				pf.MaxBatch = 300
+			}
 			c := genProgram(t, "C08", pf, th)
 			addCloseScenario(t, c, 5)
 			return c
